@@ -169,7 +169,7 @@ def run_one(ri, rn, content, kids):
     elem = ri.elem_for(rn)
     name = elem or "zzUnmapped"
     n = Node(name)
-    n._content = content
+    impl.set_content(n, content)
     for k, v in ri.valid_attrs(rn):
         n.add_attribute(k, v)
     for kn in kids:
